@@ -60,6 +60,9 @@ SELF_ATTR_CALLS = {
     ("cssRules", "append"): ("write", "_cssRules"),      # cssRules.append is rebound to self.insertRule
     ("parentStyleSheet", "_resolveImport"): ("calltemp", None),   # fetches + decodes, may raise
 }
+# <temporary>.<name> = v for these names is a plain store (CSSRuleRules._setCssRules rebinds the list methods
+# of the CSSRuleList it is given; no class of css_parser defines a setter of that name)
+LOCAL_PLAIN_ATTRS = {"append", "extend"}
 # <self.attr>.<name> = v  that are plain attribute stores (no setter, cannot raise)
 SELF_ATTR_PLAIN = {("styleSheet", "title")}
 # attributes of self that cannot be observed through the object model (diagnostics only)
@@ -643,7 +646,7 @@ class Lin:
                 pre = ("CallTemp",) if isinstance(t, ast.Attribute) and not t.attr.startswith("_") else ("Skip",)
                 return Seq(pre, self.write(kind[6:]))
             if isinstance(t, ast.Attribute) and not t.attr.startswith("_"):
-                if isinstance(t.value, ast.Name) and self.plain_attr(kind, t.attr):
+                if isinstance(t.value, ast.Name) and (self.plain_attr(kind, t.attr) or t.attr in LOCAL_PLAIN_ATTRS):
                     return ("Skip",)
                 return ("CallTemp",)      # temporary.cssText = ... etc.
             return ("Skip",)
